@@ -196,6 +196,16 @@ class ConcreteCtx:
     def output(self, name, value):
         self.outputs[name] = value
 
+    def uf(self, name, arity):
+        """Concrete stand-in for an uninterpreted function: a collision-free-in-practice hash."""
+        import hashlib
+
+        def call(*args):
+            h = hashlib.sha1((name + ":" + ",".join(str(int(a)) for a in args)).encode()).hexdigest()
+            return int(h[:12], 16)
+
+        return call
+
     def note(self, s):
         self.notes.append(s)
 
